@@ -177,6 +177,12 @@ class StmtMixin:
                 out.append(self._raise(s2, vals))
                 continue
             a, b = vals
+            if isinstance(a.t, TRef) and isinstance(s.op, ast.Add):
+                # obj += x on an object: its class's __iadd__ (assumed external contract; the result is the object itself)
+                for s3, m in self.getattr(a, "__iadd__", s2, s):
+                    for s4, r in self.apply(m, [b], {}, s3, s):
+                        out.append(self._raise(s4, r) if isinstance(r, Raised) else (s4, NORMAL))
+                continue
             if isinstance(a.t, TList) and isinstance(s.op, ast.Add):
                 b = self.reify(b) if isinstance(b.t, TConst) else b
                 r = self.list_concat(a if a.t.elem is not None else None, b)
